@@ -910,14 +910,20 @@ func runE1(p *load.Prog, r *oblig.Run, rulePrefix string, entries []*ssa.Functio
 		for _, s := range reached {
 			seen[s.Site] = true
 		}
+		// CHA resolves an interface call to every type with the method set, used or not: sites found only this way
+		// are listed for information (they are not obligations - the precise graph decides the verdict)
 		extra := 0
+		var only []string
 		for _, s := range reached2 {
 			if !seen[s.Site] {
-				s.Detail += " [reachable only under CHA]"
-				reached = append(reached, s)
 				extra++
+				if len(only) < 40 {
+					only = append(only, s.Key()+" at "+p.Pos(s.Pos))
+				}
 			}
 		}
+		sort.Strings(only)
+		r.Extra["cha_only_site_list"] = only
 		r.Extra["cha_reachable_functions"] = nf2
 		r.Extra["cha_only_sites"] = extra
 	}
